@@ -281,6 +281,10 @@ func RandomValid(rng *rand.Rand, pr Profile) string {
 			hm = 0
 		}
 		fm := 1 + rng.Intn(120)
+		if rng.Intn(12) == 0 {
+			// counter boundaries (a FEN may carry any positive fullmove number)
+			fm = []int{255, 256, 32766, 32767, 32768, 65535, 65536, 999999, 1000000000}[rng.Intn(9)]
+		}
 		return FEN(bd, stm, cr, ep, hm, fm)
 	}
 }
@@ -680,6 +684,218 @@ func DeadEpStress(rng *rand.Rand) (string, []int) {
 			continue
 		}
 		return FEN(bd, c, 0, -1, 0, 1+rng.Intn(40)), []int{from, to}
+	}
+}
+
+// BlockStress: the side to move is in check from a DISTANT slider and its king has no safe move, so the verdict
+// hinges on interposing: own pawns stand on their second/third ranks on the files of the squares between king
+// and checker (single and double pushes, double pushes jumping over something), some of them pinned, plus a
+// knight/bishop that may interpose or capture.
+func BlockStress(rng *rand.Rand) string {
+	for try := 0; ; try++ {
+		bd := make([]int, 64)
+		c := rng.Intn(2)
+		k := rng.Intn(64)
+		d := rng.Intn(8)
+		dist := 2 + rng.Intn(5)
+		kf, kr := k%8, k/8
+		cf, cr := kf+dist*df[d], kr+dist*dr[d]
+		if !onBoard(cf, cr) {
+			continue
+		}
+		bd[k] = 8*c + 6
+		checker := 5
+		if rng.Intn(2) == 0 {
+			if d < 4 {
+				checker = 4
+			} else {
+				checker = 3
+			}
+		}
+		bd[cr*8+cf] = 8*(1-c) + checker
+		var between []int
+		for i := 1; i < dist; i++ {
+			between = append(between, (kr+i*dr[d])*8+kf+i*df[d])
+		}
+		home, third, dirp := 1, 2, 1
+		if c == 1 {
+			home, third, dirp = 6, 5, -1
+		}
+		_ = dirp
+		// pawns that could interpose by a push
+		for _, b := range between {
+			f, r := b%8, b/8
+			if r == home || (c == 0 && r < home) || (c == 1 && r > home) {
+				continue
+			}
+			if rng.Intn(3) != 0 && bd[home*8+f] == 0 && home*8+f != k {
+				bd[home*8+f] = 8*c + 1
+				// something on the third rank of that file now and then: own pawn, own piece, enemy piece
+				if rng.Intn(2) == 0 && bd[third*8+f] == 0 && third*8+f != b && third*8+f != k {
+					bd[third*8+f] = []int{8*c + 1, 8*c + 2, 8*(1-c) + 2, 8*(1-c) + 1}[rng.Intn(4)]
+				}
+			}
+		}
+		// enemy king and boxing pieces
+		ek := rng.Intn(64)
+		if bd[ek] != 0 || (abs(ek%8-kf) <= 1 && abs(ek/8-kr) <= 1) {
+			continue
+		}
+		bd[ek] = 8*(1-c) + 6
+		for i := 0; i < 5 && kingHasSafeMove(bd, c); i++ {
+			sq := rng.Intn(64)
+			if bd[sq] == 0 && !contains(between, sq) {
+				t := []int{5, 4, 3, 2}[rng.Intn(4)]
+				bd[sq] = 8*(1-c) + t
+			}
+		}
+		if kingHasSafeMove(bd, c) {
+			continue
+		}
+		// pinners aimed at the own pawns through the king lines, an own minor piece somewhere
+		for i, n := 0, rng.Intn(3); i < n; i++ {
+			sq := rng.Intn(64)
+			if bd[sq] == 0 && !contains(between, sq) {
+				bd[sq] = 8*(1-c) + []int{3, 4, 5}[rng.Intn(3)]
+			}
+		}
+		if rng.Intn(2) == 0 {
+			sq := rng.Intn(64)
+			if bd[sq] == 0 && !contains(between, sq) {
+				bd[sq] = 8*c + []int{2, 3}[rng.Intn(2)]
+			}
+		}
+		if !countsOK(bd) || Attacked(bd, kingSq(bd, 1-c), c) || !Attacked(bd, k, 1-c) {
+			continue
+		}
+		bad := false
+		for s2, p := range bd {
+			if p%8 == 1 && (s2/8 == 0 || s2/8 == 7) {
+				bad = true
+			}
+		}
+		if bad {
+			continue
+		}
+		return FEN(bd, c, 0, -1, 0, 1+rng.Intn(60))
+	}
+}
+
+func contains(l []int, x int) bool {
+	for _, y := range l {
+		if y == x {
+			return true
+		}
+	}
+	return false
+}
+
+// EpOnlyMove: the side to move is not in check, its king and its other men have no move (or there are none), and
+// an en-passant capture is on offer - legal, or illegal because the capturer is pinned, or because taking both
+// pawns off the rank/file/diagonal uncovers the king. The en-passant target is recorded only when a capture is
+// legal (the convention the fast tests assume).
+func EpOnlyMove(rng *rand.Rand) string {
+	for {
+		bd := make([]int, 64)
+		c := rng.Intn(2) // side to move (the capturer)
+		f := rng.Intn(8)
+		toR, epR, capR := 4, 5, 4 // white captures: black pawn on rank 5 (index 4), target rank 6 (index 5)
+		if c == 1 {
+			toR, epR, capR = 3, 2, 3
+		}
+		pushed := toR*8 + f
+		ep := epR*8 + f
+		bd[pushed] = 8*(1-c) + 1
+		var caps []int
+		for _, nf := range []int{f - 1, f + 1} {
+			if nf >= 0 && nf < 8 && rng.Intn(3) != 0 {
+				bd[capR*8+nf] = 8*c + 1
+				caps = append(caps, capR*8+nf)
+			}
+		}
+		if len(caps) == 0 {
+			continue
+		}
+		// the king: behind the target on the push file, on the capturers' rank, on a diagonal through the target or
+		// through a capturer, or anywhere
+		var k int
+		switch rng.Intn(5) {
+		case 0:
+			r := epR + 1 + rng.Intn(2)
+			if c == 1 {
+				r = epR - 1 - rng.Intn(2)
+			}
+			if r < 0 || r > 7 {
+				continue
+			}
+			k = r*8 + f
+		case 1:
+			k = capR*8 + rng.Intn(8)
+		case 2, 3:
+			a := ep
+			if rng.Intn(2) == 0 {
+				a = caps[rng.Intn(len(caps))]
+			}
+			d := 4 + rng.Intn(4)
+			n := 1 + rng.Intn(4)
+			kf, kr := a%8+n*df[d], a/8+n*dr[d]
+			if !onBoard(kf, kr) {
+				continue
+			}
+			k = kr*8 + kf
+		default:
+			k = rng.Intn(64)
+		}
+		if bd[k] != 0 || k == ep {
+			continue
+		}
+		bd[k] = 8*c + 6
+		// an enemy slider on the far side of the line king -> pawns
+		for i, n := 0, 1+rng.Intn(3); i < n; i++ {
+			sq := rng.Intn(64)
+			if bd[sq] == 0 && sq != ep {
+				bd[sq] = 8*(1-c) + []int{3, 4, 5, 5}[rng.Intn(4)]
+			}
+		}
+		ek := rng.Intn(64)
+		if bd[ek] != 0 || ek == ep || (abs(ek%8-k%8) <= 1 && abs(ek/8-k/8) <= 1) {
+			continue
+		}
+		bd[ek] = 8*(1-c) + 6
+		// block the capturers' own pushes and box the king
+		dirp := 8
+		if c == 1 {
+			dirp = -8
+		}
+		for _, cp := range caps {
+			if fr := cp + dirp; fr >= 0 && fr < 64 && bd[fr] == 0 && fr != ep && rng.Intn(4) != 0 {
+				bd[fr] = 8*(1-c) + []int{1, 2, 3}[rng.Intn(3)]
+				if bd[fr]%8 == 1 && (fr/8 == 0 || fr/8 == 7) {
+					bd[fr] = 8*(1-c) + 2
+				}
+			}
+		}
+		for i := 0; i < 6 && kingHasSafeMove(bd, c); i++ {
+			sq := rng.Intn(64)
+			if bd[sq] == 0 && sq != ep {
+				bd[sq] = 8*(1-c) + []int{5, 4, 3, 2}[rng.Intn(4)]
+			}
+		}
+		origin := ep + dirp
+		if origin < 0 || origin > 63 || bd[origin] != 0 {
+			continue
+		}
+		if kingHasSafeMove(bd, c) && rng.Intn(3) != 0 {
+			continue
+		}
+		if !countsOK(bd) || Attacked(bd, kingSq(bd, 1-c), c) || Attacked(bd, k, 1-c) {
+			continue
+		}
+		e := -1
+		if EpCapturable(bd, c, ep) {
+			e = ep
+		}
+		return FEN(bd, c, 0, e, 0, 1+rng.Intn(60))
 	}
 }
 
